@@ -259,15 +259,25 @@ Fixpoint cost_index_esc (e d : bytes) {struct d} : N :=
 Definition cost_index_end (d e : bytes) (escape : bool) : N :=
   if escape then cost_index_esc e d else cost_index e d.
 
-(* firstMatch: EVERY start marker is searched in the whole window, whether or not it occurs *)
-Fixpoint cost_fm (data : bytes) (flags : list bytes) : N :=
-  match flags with [] => 0 | f :: rest => cost_index f data + cost_fm data rest end.
+(* firstMatch (after fix 73a5c57): ONE walk over the window that stops at the first position where
+   some start marker is a prefix; every position visited tests each marker (first byte, then
+   HasPrefix): len(flags) steps per position, 1 for running off the end *)
+Fixpoint cost_fm_at (d : bytes) (flags : list bytes) : N :=
+  match d with
+  | [] => 1
+  | _ :: t =>
+      N.of_nat (length flags) +
+      match find_flag d flags O with
+      | Some _ => 0
+      | None => cost_fm_at t flags
+      end
+  end.
 
 (* one call of the split function on the scanner's window [data] *)
 Definition cost_split (data : bytes) (atEOF : bool) : N :=
   if atEOF && is_nil data then 1
   else
-    1 + cost_fm data start_matches +
+    1 + cost_fm_at data start_matches +
     match first_match data start_matches with
     | None => 0
     | Some (pos, i) =>
@@ -282,7 +292,7 @@ Definition cost_split (data : bytes) (atEOF : bool) : N :=
     end.
 
 (* the whole document in one window (what the scanner holds once the document fits its buffer):
-   every token re-scans the rest of the window *)
+   one split call per token, each on what is left of the window *)
 Fixpoint cost_strip_go (fuel : nat) (d : bytes) : N :=
   match fuel with
   | O => 0
